@@ -117,15 +117,19 @@ func drawLiveness(n int, rng *rand.Rand) Spec {
 		case 6:
 			c.LaunchFail = true // both timeouts long gone
 			return c, "register"
+		case 8: // launched, two Nodes carry the providerID: Registered goes False (MultipleNodesFound), which is not a timeout
+			c.Stage = stAppeared
+			c.DupNode = []string{"fresh", "seen"}[rng.Intn(2)]
+			return c, "register"
 		}
 		c.Stage = stInitialized
 		return c, "register"
 	}
-	c0, thr := kind(n % 8)
+	c0, thr := kind(n % 9)
 	S.Claims = append(S.Claims, c0)
 	S.Threshold = thr
 	for i := rng.Intn(3); i > 0; i-- {
-		c, _ := kind(rng.Intn(8))
+		c, _ := kind(rng.Intn(9))
 		S.Claims = append(S.Claims, c)
 	}
 	return S
